@@ -24,6 +24,8 @@ ALLOC_OK = {
     "collections::HashMap::contains_key": "no allocation",
     "collections::HashMap::get": "no allocation",
     "vec::Vec::is_empty": "no allocation",
+    "vec::Vec::as_slice": "no allocation", "vec::Vec::len": "no allocation", "vec::Vec::iter": "no allocation", "vec::Vec::first": "no allocation",
+    "vec::Vec::get": "no allocation",
     "ops::Deref::deref": "no allocation",
     "ops::Index::index": "no allocation",
     "convert::From::from": "ParseError::from(io::Error) moves the error",
